@@ -302,6 +302,11 @@ let () =
         let t = spec_rej_tokens_ln fuel prog (n_of_int (ai sc)) pol (ab bol) w in
         Printf.printf "rejtokens_ln %s\n"
           (String.concat " " (List.map (fun ((r, h), l) -> Printf.sprintf "%d:%d:%d" (int_of_n r) (int_of_nat h) (int_of_nat l)) t))
+      | L [A "stacktrace"; L ops] ->
+        (* ops: a positive number pushes that buffer, 0 pops; answer: top:max after every operation *)
+        let ks = List.map (fun v -> let n = ai v in if n > 0 then KPush (nat_of_int n) else KPop) ops in
+        let tr = trace bs_init ks in
+        Printf.printf "stacktrace %s\n" (String.concat " " (List.map (fun (t, m) -> Printf.sprintf "%d:%d" (int_of_nat t) (int_of_nat m)) tr))
       | L [A "eolcheck"; L flags] ->
         (* flags: yy_rule_can_match_eol[1 .. number of rules + 1] (the last one belongs to the default rule) *)
         let fl = List.map (fun v -> ai v <> 0) flags in
